@@ -333,9 +333,32 @@ def shards(tier, seed):
     def sh(name, shape, combos, op_lists, **kw):
         out.append(dict(name=name, fn="h_linear", kwargs=dict(shape=shape, combos=combos, op_lists=op_lists, **kw), budget=B, per_path=PP))
 
-    K5 = ["F0", "F1", "P0", "C", "S"]
+    ALL = ["F0", "F1", "P0", "P1", "C", "Cd", "S", "U"]
+    Q = ["F0", "F1", "P0", "C", "Cd"]
+    PAIRS = [[a, b] for a in "+-*/" for b in "+-*/"]   # [top, inner] (pre-order)
+    # every 3-node tree over every leaf-kind combination (both tiers)
     for o in "+-*/":
-        sh(f"bin-{NM[o]}", "bin", _combos(2, ["F0", "F1", "P0", "P1", "C", "Cd", "S", "U"]), [[o]])
+        sh(f"bin-{NM[o]}", "bin", _combos(2, ALL), [[o]])
+    sh("bin-real-param", "bin", [["F0", "R"], ["R", "F0"], ["F1", "R"]], [[o] for o in "+-*/"])
+    sh("bin-symbolic-fluent-bounds", "bin", _combos(2, ["F0", "F1", "P0", "C", "Cd"]), [[o] for o in "+-*/"], sym_fluent_bounds=True)
+    if quick:
+        for shape in ("left", "right"):
+            for top in "+-*/":
+                sh(f"{shape}-top-{NM[top]}", shape, _combos(3, Q), [p for p in PAIRS if p[0] == top])
+        sh("nary3-plus", "nary3", _combos(3, Q + ["S"]), [["+"]])
+        sh("nary3-times", "nary3", _combos(3, Q + ["S"]), [["*"]])
+    else:
+        for shape in ("left", "right"):
+            for p in PAIRS:
+                sh(f"{shape}-{NM[p[0]]}-{NM[p[1]]}", shape, _combos(3, ALL), [p])
+            sh(f"{shape}-symbolic-fluent-bounds", shape, _combos(3, ["F0", "P0", "C", "Cd"]), PAIRS, sym_fluent_bounds=True)
+            sh(f"{shape}-real-param", shape, [c for c in _combos(3, ["F0", "R", "P0", "Cd"]) if "R" in c], PAIRS)
+        sh("nary3-plus", "nary3", _combos(3, ALL), [["+"]])
+        sh("nary3-times", "nary3", _combos(3, ALL), [["*"]])
+        for top in "+-*/":
+            sh(f"nary-in-bin-{NM[top]}", "nary-in-bin", _combos(4, ["F0", "P0", "C", "Cd"]), [[top, "+"], [top, "*"]])
+            sh(f"bin-in-nary-{NM[top]}", "bin-in-nary", _combos(4, ["F0", "P0", "C", "Cd"]), [["+", top], ["*", top]])
+            sh(f"bin-bin-{NM[top]}", "bin-bin", _combos(4, ["F0", "F1", "P0", "Cd"]), [[top, a, b] for a in "+-*/" for b in "+-*/"])
     return out
 
 
